@@ -413,6 +413,27 @@ func (e *Enc) lookupLocal(fr *Frame, name string, b *ssa.BasicBlock, idx int, ph
 		}
 		return CE{}, false
 	}
+	if strings.HasPrefix(name, "$visited") && len(name) > len("$visited") {
+		// $visited<k>: the visited set of map-range loop k (an enclosing loop's
+		// set, seen from an inner loop's invariant)
+		var k int
+		if _, err := fmt.Sscanf(name[len("$visited"):], "%d", &k); err == nil {
+			for h, li := range fr.loops {
+				if li.Ordinal != k {
+					continue
+				}
+				for _, ins := range h.Instrs {
+					if nx, ok := ins.(*ssa.Next); ok {
+						if it := fr.iterInfo[nx.Iter]; it != nil && !it.isStr {
+							srt := stateSorts[it.visited]
+							return CE{T: e.get(st, it.visited, srt), Arr: srt}, true
+						}
+					}
+				}
+			}
+		}
+		return CE{}, false
+	}
 	if name == "$index" || name == "$visited" {
 		if name == "$index" {
 			for _, ins := range b.Instrs {
